@@ -285,8 +285,83 @@ func runC10(c *core.Ctx) {
 	// ---------- C10.alloc ----------
 	runC10Alloc(c)
 
+	// ---------- C10.slice ----------
+	runC10Slice(c)
+
 	// ---------- C10.panics ----------
 	runC10Panics(c)
+}
+
+// runC10Slice: digest-length fields of a CID prefix come from untrusted link
+// bytes; used as a slice bound they must be compared with the length of the
+// sliced value first.
+func runC10Slice(c *core.Ctx) {
+	p := c.P
+	c.Rule("C10.slice", "a slice bound derived from a CID prefix field (digest length taken from untrusted link bytes) is dominated by a comparison bounding it by len() of the sliced value", 1)
+	isSrc := func(v ssa.Value) bool {
+		switch x := v.(type) {
+		case *ssa.UnOp:
+			if fa, ok := x.X.(*ssa.FieldAddr); ok && x.Op == token.MUL {
+				return strings.HasPrefix(core.FieldName(fa), "Prefix.")
+			}
+		case *ssa.Field:
+			return strings.HasPrefix(core.FieldName(x), "Prefix.")
+		}
+		return false
+	}
+	for _, fn := range p.ModFns {
+		pk := core.FuncPkg(fn)
+		if pk == nil || len(fn.Blocks) == 0 {
+			continue
+		}
+		rel := core.RelPkg(pk.Path())
+		if !parserSide(rel) && !strings.HasPrefix(rel, "linking") {
+			continue
+		}
+		n := 0
+		core.Instrs(fn, func(in ssa.Instruction) {
+			sl, ok := in.(*ssa.Slice)
+			if !ok {
+				return
+			}
+			for _, b := range []ssa.Value{sl.Low, sl.High, sl.Max} {
+				if b == nil || core.ConstVal(b) != nil {
+					continue
+				}
+				chain := core.BackSlice(b, core.SliceOpts{Stores: true})
+				if !core.AnyIn(chain, isSrc) {
+					continue
+				}
+				n++
+				isLenOfSliced := func(v ssa.Value) bool {
+					cv, ok := v.(*ssa.Call)
+					if !ok {
+						return false
+					}
+					bi, ok := cv.Call.Value.(*ssa.Builtin)
+					return ok && bi.Name() == "len" && cv.Call.Args[0] == sl.X
+				}
+				good := false
+				inChain := func(v ssa.Value) bool {
+					if chain[v] {
+						return true
+					}
+					for w := range chain {
+						if core.SameLoad(w, v) {
+							return true
+						}
+					}
+					return false
+				}
+				for e := range core.EdgesWhere(fn, func(r core.Rel) bool { return r.ImpliesLE() && inChain(r.X) && isLenOfSliced(r.Y) }) {
+					if core.EdgeDominates(e, sl.Block()) {
+						good = true
+					}
+				}
+				c.Check(good, fmt.Sprintf("%s#slice-bound%d", core.FuncKey(fn), n), p.Pos(sl.Pos()), "prefix-derived bound checked against len of the sliced value", "a digest length taken from a (possibly untrusted) CID prefix is used as a slice bound without being compared with the length of the sliced value: loading such a link panics instead of failing with a hash mismatch")
+			}
+		})
+	}
 }
 
 // chargedEdges returns the edges on which the budget is known not exhausted
